@@ -194,8 +194,8 @@ theorem applyRes_waitInv (cfg : Cfg) (pol : Policy) (step : Nat) (tickEv : Ev) (
     simp only [applyRes]
     split
     · exact ⟨hst, hex⟩
-    · exact ⟨hst, hex⟩
-    · split
+    all_goals
+      split
       · split
         · exact ⟨hst, hex⟩
         · exact ⟨fun s => hst s, hex⟩
